@@ -122,6 +122,13 @@ const NATURAL_ORDER: [&[(u16, u16)]; 9] = [
 
 pub const DCT8_NATURAL_ORDER: &[(u16, u16)] = NATURAL_ORDER[0];
 
+/// Verification hook (H9): the natural coefficient order table of order `idx` (0..13), as the
+/// HF pass parser obtains it.
+#[cfg(jxl_oxide_verif)]
+pub fn verif_natural_order(idx: usize) -> &'static [(u16, u16)] {
+    natural_order_lazy(idx)
+}
+
 fn natural_order_lazy(idx: usize) -> &'static [(u16, u16)] {
     if idx >= 13 {
         panic!("Order ID out of bounds");
